@@ -75,6 +75,8 @@ package utils
 //@   property C07 C18
 //@   ensures [absent_unchanged] (forall k int :: 0 <= k && k < len(s) ==> old(s[k]) != r) ==> result == s
 //@   ensures [one_shorter] (exists k int :: 0 <= k && k < len(s) && old(s[k]) == r) ==> len(result) == len(s) - 1
+//@   ensures [same_backing_array] len(s) > 0 ==> arr(result) == arr(s)
+//@   assigns s
 //@   loop 1 invariant [none_before] forall k int :: 0 <= k && k < iter ==> s[k] != r
 
 // the seeded generator every bias and the bias-firing loop are wired with: a private source per call, values in [0,1)
